@@ -977,6 +977,9 @@ func replay(kind string, raw json.RawMessage) error {
 	if strings.HasPrefix(kind, "path") {
 		return run.Decode(raw, checkPath)
 	}
+	if strings.HasPrefix(kind, "sharedmap") {
+		return run.Decode(raw, checkShared)
+	}
 	if strings.HasPrefix(kind, "share") {
 		return run.Decode(raw, checkShare)
 	}
@@ -1118,6 +1121,12 @@ func TestProp(t *testing.T) {
 	if pok {
 		rec.Exhaustive(fmt.Sprintf("all paths of <= %d steps (valid and invalid continuations, 4 spellings, %d bindings in rotation) over %d zoo values (%d paths)", run.Pick(3, 4), len(binds), len(zoo()), pn))
 	}
+
+	// ---- family 1b: several stacks over one caller-owned root map
+	if mn, mok := enumShared(rec, run.Pick(3, 4), shard, shards); mok {
+		rec.Exhaustive(fmt.Sprintf("all op sequences of length 1..%d over a 13-op alphabet on two stacks sharing one caller map plus a copy, the caller's map and every stack compared after every op (%d histories)", run.Pick(3, 4), mn))
+	}
+	run.Rapid(t, rec, "sharedmaprandom", genShared, classifyShared, checkShared)
 
 	// ---- family 3, pointer sharing: every pair of places sharing one struct pointer
 	if sn, sok := enumShare(rec, shard, shards); sok {
